@@ -610,7 +610,7 @@ def shard(args):
     if cfg_idx == 0:
         env.reset(cfg["tty"], cfg["nonblock"], cfg["prev_handler"], cfg["prev_wakeup"])
         before = open_fds()
-        for _ in range(50):
+        for _ in range(300):
             try:
                 with factory(env):
                     pass
@@ -618,9 +618,9 @@ def shard(args):
                 acc.failure("C12:enter_exit_raises:" + type(ex).__name__, {"context": name}, repr(ex))
                 break
         after = open_fds()
-        acc.case(True, key=(name, "50 cycles"))
+        acc.case(True, key=(name, "300 cycles"))
         if after != before:
-            acc.failure("C12:file_descriptors_leaked", {"context": name, "cycles": 50}, "leaked %r" % (sorted(after - before),))
+            acc.failure("C12:file_descriptors_leaked", {"context": name, "cycles": 300}, "leaked %r" % (sorted(after - before),))
     acc.state(hash((name, cfg_idx)))
     return acc.export()
 
@@ -827,7 +827,7 @@ def run(ctx):
         "previous wake-up fd none/pipe, all combined) x bodies of <= 2 operations (requests with nothing / a key / an escape sequence / a paste "
         "pending, a timed request, each trigger factory + callback, unget_bytes; two renders; cursor diff) x crash points: normal exit, an "
         "exception after every prefix, KeyboardInterrupt and a real synchronous SIGINT at every asynchronous point (profile events call/c_return "
-        "in curtsies frames; one-operation bodies quick, two-operation bodies thorough), OSError from the k-th write/read/select; 50 enter/exit "
+        "in curtsies frames; one-operation bodies quick, two-operation bodies thorough), OSError from the k-th write/read/select; 300 enter/exit "
         "cycles; Input in a non-main thread; a never-entered Input inside Cbreak with the program flipping the blocking mode (all bodies of <= 4 "
         "operations, prefix crash points); one Input used on the main thread and a worker thread (3 orders x 5 bodies x crash points) while another "
         "Input holds a context on the main thread. evaluations = executions on a real pty; non-trivial = the context is left through a fault" % nctx
